@@ -3,6 +3,7 @@ import Driver.ExecOps
 import Driver.CodecOps
 import Driver.ChecksumOps
 import Driver.DiagOps
+import Driver.DevIdOps
 open Lean Driver
 
 def dispatch (j : Json) : P Json := do
@@ -14,6 +15,8 @@ def dispatch (j : Json) : P Json := do
   | "codec" => opCodec j
   | "predict" => opPredict j
   | "diagreply" => opDiagReply j
+  | "devid" => opDevId j
+  | "devid_enc" => opDevIdEnc j
   | "crc" => opCrc j
   | "lrc" => opLrc j
   | "crctable" => opCrcTable j
